@@ -299,6 +299,8 @@ def main():
         stats[cmp_["status"]] += 1
         stats["compared_calls"] += cmp_.get("compared", 0)
         stats["abs_only"] += cmp_.get("abs_only", 0)
+        if cmp_.get("informational"):
+            stats["flipped_image_disagreements"] = stats.get("flipped_image_disagreements", 0) + cmp_["informational"]
         if cmp_["status"] in ("diverge", "outoffuel") and h.meta.get("outside_contract"):
             # a history that is outside this property's quantifier on purpose (it exercises the model, e.g. merge() of
             # graphs that are not trees): a disagreement is reported in the evidence, it is not this property's alarm
